@@ -170,6 +170,30 @@ def crafted():
         out.append((h1 + q + nm + a_tail, 'name-wire-%d' % len(nm)))
         # the same length reached through a pointer into the question name
         out.append((h1 + q + nm[:-1][:max(0, len(nm) - 1 - 17)] + b'\xc0\x0c' + a_tail, 'name-wire-ptr'))
+        # ... with a WELL-FORMED literal prefix: labels of exactly (total - question name) octets, then the pointer; and the
+        # same through a chain of two and three pointers (each hop contributes one more literal label)
+        qn = len(q) - 4                                  # wire length of the question name incl. its root octet
+
+        def labels_wire(nbytes):
+            w = b''
+            while nbytes > 0:
+                n = min(63, nbytes - 1)
+                if n <= 0:
+                    return None
+                w += bytes([n]) + b'b' * n
+                nbytes -= n + 1
+            return w
+        pre = labels_wire(total - qn)
+        if pre is not None:
+            out.append((h1 + q + pre + b'\xc0\x0c' + a_tail, 'name-wire-ptr-ok-%d' % total))
+            # owner = pre2 + ptr -> (3 "hop" + ptr -> question name), the hop stored in the rdata of a TXT-like record behind it
+            pre2 = labels_wire(total - qn - 4)
+            if pre2 is not None:
+                m = bytearray(header(7, 0x8180, 1, 2) + q)
+                hop_at = len(m) + 2 + 10                 # owner pointer(2) + type/class/ttl/rdlength(10)
+                m += b'\xc0\x0c' + b'\x00\x10\x00\x01\x00\x00\x00\x05' + struct.pack('>H', 6) + b'\x03hop\xc0\x0c'
+                m += pre2 + struct.pack('>H', 0xC000 | hop_at) + a_tail
+                out.append((bytes(m), 'name-wire-ptr-chain-%d' % total))
     ptr_tail = b'\x00\x0c\x00\x01\x00\x00\x00\x3c'
     for rd, tag in ((b'\x00\x02\xc0\x0c', 'ptr-rr'), (b'\x00\x03\xc0\x0c\x00', 'ptr-rr-pad'), (b'\x00\x01\xc0\x0c', 'ptr-rr-short'), (b'\x00\x00', 'ptr-rr-empty'),
                     (b'\x00\x05\x03abc\x00', 'ptr-rr'), (b'\x00\x04\x03abc\x00', 'ptr-rr-short'), (b'\x00\x01\x00', 'ptr-rr-root'), (b'\x00\x09\x03abc\x00', 'ptr-rr-beyond')):
